@@ -278,6 +278,24 @@ def compare(env, frame_el, table, m, wit, tag=""):
                     v("reading:%s" % name, "%s %s is %r, model %r" % (where, name, g, w_))
     n["is_merge_origin"] += m.r * m.c
     n["is_spanned"] += m.r * m.c
+    # the same readings through the _Cell proxies obtained at an EARLIER state of this table (a caller who keeps `cell = table.cell(..)`
+    # across merges and splits): they wrap the same a:tc elements, so they must report the present state
+    cache = env.__dict__.setdefault("cell_proxies", {})
+    old = cache.get(id(frame_el))
+    if old is not None and old[0] is frame_el and len(old[1]) == len(cells):
+        for k, cell in enumerate(old[1]):
+            i, j = divmod(k, m.c)
+            role, want = m.expect((i, j))
+            try:
+                got = (cell.is_merge_origin, cell.is_spanned) + ((cell.span_height, cell.span_width) if role in ("origin", "free") else ())
+            except Exception as e:  # noqa
+                v("reading-raises:%s" % type(e).__name__, "reading cell (%d,%d) through a proxy obtained earlier raised %r" % (i, j, e))
+                continue
+            exp = (role == "origin", role not in ("origin", "free")) + ((want[1], want[0]) if role in ("origin", "free") else ())
+            n["readings_through_earlier_proxies"] += 1
+            if got != exp:
+                v("reading:stale-proxy", "cell (%d,%d) [%s] read through a proxy obtained earlier: %r, model %r" % (i, j, role, got, exp))
+    cache[id(frame_el)] = (frame_el, cells)
     ws, hs, cx, cy = sizes(frame_el)
     for key, got, want in (("col-width", ws, m.widths), ("row-height", hs, m.heights), ("frame-size:width", cx, m.frame_w), ("frame-size:height", cy, m.frame_h)):
         if got != want:
